@@ -414,6 +414,43 @@ pub fn sites(tier: Tier) -> Vec<Site> {
             }));
     }
 
+    // 5a''. undefined bytes are no excuse: behind any run of bytes that mean nothing in the selected page, plain
+    // text and the next marker are still interpreted (the reference tables say nothing about the undefined
+    // bytes themselves, so only what follows them is judged)
+    {
+        let mut cases: Vec<(Vec<u8>, String)> = vec![];
+        for l in LETTERS {
+            for bad in [vec![0xffu8], vec![0x80], vec![0x81, 0xff], vec![0xa0], vec![0xfe, 0x39]] {
+                for pre in [&b""[..], b"a", b"abcdefgh", &[0xe9, 0xe9, 0xe9][..]] {
+                    for reps in [1usize, 2, 3, 4, 5, 6, 7, 8, 9, 12, 16, 17, 31, 32, 33, 64, 100] {
+                        // (a space first: 0x20 is a trail byte in none of the pages, so a dangling lead byte cannot swallow the text)
+                        for (tail, want) in [(&b" xyz"[..], "xyz"), (&b" ^Lxyz"[..], "xyz"), (&b" xy^8z"[..], "z")] {
+                            let mut b = vec![b'^', l as u8];
+                            b.extend_from_slice(pre);
+                            for _ in 0..reps { b.extend_from_slice(&bad); }
+                            b.extend_from_slice(tail);
+                            cases.push((b, want.to_string()));
+                        }
+                    }
+                }
+            }
+        }
+        let cases = Arc::new(cases);
+        sites.push(Site::new("undefined-bytes-then-text", cases.len() as u64,
+            "each of the ten markers x 4 prefixes x a run of 1..100 of 5 byte patterns that are undefined (or half-defined) in some pages x 3 tails: the text behind the run is still there",
+            move |i, acc| {
+                acc.eval();
+                let (b, want) = &cases[i as usize];
+                let replay = json!({"site": "undefined-bytes-then-text", "index": i, "input": hex(&b[..b.len().min(96)]), "length": b.len()});
+                match guard(|| to_lossy_string(b).to_string()) {
+                    Err(p) => acc.violate(i, "C10|decode|panic".into(), format!("to_lossy_string({}) panicked: {p}", hex(&b[..b.len().min(64)])), replay),
+                    Ok(g) if g.ends_with(want.as_str()) => { acc.class("text-behind-undefined-bytes-kept"); acc.nontrivial(); },
+                    Ok(g) => acc.violate(i, format!("C10|decode|text-behind-undefined-bytes-lost|{}", b[1] as char),
+                        format!("to_lossy_string({}) = {:?}: the text {want:?} at the end of the input is missing", hex(&b[..b.len().min(64)]), g.chars().rev().take(24).collect::<Vec<_>>().into_iter().rev().collect::<String>()), replay),
+                }
+            }));
+    }
+
     // 5b. a trail byte that looks like a caret must not be read as a marker (DBCS-aware scan)
     {
         let tt = t.clone();
